@@ -37,7 +37,14 @@ ASSUMES = [
     "correspondence on every run",
     "each kernel iteration writes only its own pixel of the output copies and reads only the input arrays (visible "
     "in the source: out_disp[col,row]/out_val[col,row] vs disp/valid) -- the model is the per-pixel function",
-    "valid pixels hold finite disparities (NaN only on invalid pixels) for the value-range theorems",
+    "valid pixels hold finite disparities (NaN only on invalid pixels) for the value-range theorem "
+    "(C14_filled_between_min_max_valid, hypothesis valid_range)",
+    "no pixel carries bit 8 and bit 9 together (hypothesis never_both of the clause theorems and of "
+    "C14_sgm_meets_spec): established by the cross-check (C14_cross_check_never_both) and preserved by the "
+    "interpolation (C14_never_both_preserved); on such a pixel sgm's `-= 512; += 256` carries "
+    "(C14_sgm_both_bits_carry)",
+    "border pixels hold bit 0 only when the interpolation starts (C07_xcheck_border_bit0): cases with other "
+    "states on the border are used for the correspondence only",
 ]
 TRUSTED = ["Gen/ValConst.v produced by translator/gen_valconst.py from the imported pandora.constants",
            "Gen/Callbacks.v produced by translator/gen_callbacks.py from the ast of state_machine.py"]
